@@ -57,6 +57,8 @@ def run_result(ctx, desc, extra_sample=None):
         cov["local_method_name_in_lower_case"] += 1
     if desc.get("options", {}).get("log_level") in ("info", "debug"):
         cov["log_level.verbose"] += 1
+    if desc.get("local_search_below_a_parent_on_an_objective_with_infinite_values"):
+        cov["local_search_below_a_parent_on_an_objective_with_infinite_values"] += 1
     if "gsc" in desc:
         cov[f"gsc.{desc['gsc']['k']}"] += 1
         cov[f"sprout.{desc['sprout']['k']}"] += 1
@@ -438,6 +440,13 @@ class C03(RunSpec):
         if idx % 10 == 2:
             # local searches that make no iteration at all (flat objective): whatever the deme does then must still be counted
             p.update({"fams": ["plateau", "constant", "plateau"], "leaf": _cycle(["local", "local_maxiter"], idx // 10), "levels": [2, 3], "allow_cutoff": False})
+        if idx % 10 == 9:
+            # an objective with infinite values (a pit in which it is infinitely good, or a +inf penalty) and a local search sprouted from a
+            # parent whose best point has such a value: scipy's arithmetic breaks down there and proposes non-finite iterates, about which the
+            # objective is never asked - scipy's own nfev then differs from the calls made
+            p.update({"fam": _cycle(["pit", "pit", "penalty"], idx // 10), "root": _cycle(["sea", "de", "lhs", "ga"], idx // 10), "leaf": _cycle(["local", "local_maxiter"], idx // 10),
+                      "n_levels": 2, "stacks": False, "sprout": "simple", "gscs": ["melimit"], "boxes": ["sym", "asym"], "allow_cutoff": False, "free_lscs": True, "dim": (2, 3)})
+            p.pop("levels", None)
         if idx % 7 == 6:
             p = {"kind": "minimize", "dim": (2, 4), "budget": "both" if idx % 28 == 13 else "maxfun", "vertex_collapse": idx % 21 == 20}
         return p
@@ -447,6 +456,8 @@ class C03(RunSpec):
         if idx % 10 == 8 and d.get("kind") == "tree" and d["obj"]["fam"] == "penalty" and not d.get("reuse"):
             for lv in d["levels"]:
                 lv["stack"] = ["cutoff:1000000"]
+        if idx % 10 == 9 and idx % 7 != 6 and d.get("kind") == "tree" and d["obj"]["fam"] in ("pit", "penalty") and d["levels"][-1]["engine"] in ("local", "local_maxiter"):
+            d["local_search_below_a_parent_on_an_objective_with_infinite_values"] = True
         return d
 
     def floors(self, tier):
@@ -458,6 +469,7 @@ class C03(RunSpec):
             ("C03.minimize_nfev_checked", 1, "minimize runs"),
             ("C03.minimize_with_both_limits_whose_maxiter_metaepochs_would_cost_more_than_maxfun", 2, "minimize(maxfun=N, maxiter=M) runs that spent the whole evaluation budget"),
             ("C03.minimize_runs_with_5_or_more_repeated_points", 1, "minimize() runs in which the objective was called >= 5 times at a point it had been called at before"),
+            ("local_search_below_a_parent_on_an_objective_with_infinite_values", 5, "local levels below a parent on an objective with infinite values (pit / penalty)"),
             ("C03.local_deme_without_any_iteration", 2, "local deme whose search made no iteration"),
         ]
         return fl
@@ -738,6 +750,10 @@ class C06(RunSpec):
             p["lscs"] = ["steady", "steady", "melimit", "children"]
             p["gscs"] = ["melimit"]
             p["fams"] = ["rastrigin", "sphere", "funnel"]
+        if idx % 10 == 7:
+            # local searches that scipy cuts short (maxiter of 1 or 2 on a multimodal objective): one-shot all the same
+            p.update({"n_levels": 2, "leaf": "local_maxiter", "fams": ["rastrigin", "funnel", "rastrigin"], "dim": (3, 5), "gscs": ["melimit"],
+                      "root": _cycle(["sea", "de", "lhs", "shade"], idx // 10), "local_cut_short": True})
         if idx % 6 == 0:
             # CMA-ES run to internal termination: flat objective, tiny sigma
             p["leaf"] = "cma"
@@ -756,6 +772,10 @@ class C06(RunSpec):
                 d["sprout"]["far"] = rmin * rng.choice([0.03, 0.08])
             if "pop" in d["levels"][0]:
                 d["levels"][0]["pop"] = max(d["levels"][0]["pop"], 12)
+        if idx % 10 == 7 and d["levels"][-1]["engine"] == "local_maxiter":
+            d["levels"][-1]["maxiter"] = 1 + (idx // 10) % 2
+            if d["gsc"]["k"] == "melimit":
+                d["gsc"]["n"] = max(d["gsc"]["n"], 5)
         if idx % 10 == 4 and len(d["levels"]) == 3 and d["levels"][-1]["engine"] == "local":
             d["sprout"] = {"k": "custom", "gen": {"k": "nbclocal", "df": 2.0, "trunc": 1.0}, "dfilters": [{"k": "demelimit", "n": 2}],
                            "tfilters": [{"k": "levellimit", "n": 4}], "ll": 4}
@@ -810,6 +830,7 @@ class C06(RunSpec):
             ("C06.stopped_deme_observed_3_later_metaepochs", 1, "stopped deme observed over >=3 later metaepochs"),
             ("hand_driven_metaepochs", 10, "metaepochs driven by hand through run_metaepoch() / run_sprout()"),
             ("C06.hibernating_deme_ahead_of_an_awake_one_in_run_order", 3, "a sleeping deme ahead of an awake one in the run order"),
+            ("C06.local_search_cut_short_by_its_iteration_limit", 5, "local searches stopped by their iteration limit (maxiter) rather than by convergence"),
             ("C06.local_deme_sprouted_from_a_stopped_parent", 2, "local deme sprouted from a stopped mid-level deme"),
             ("C06.lsc_verdicts_compared_with_documented_rule", 50, "LSC verdicts compared with the documented rule"),
         ]
